@@ -460,3 +460,37 @@ func TestC03Quorum(t *testing.T) {
 		"distribution": map[string]any{"grid": "n<=31, f<=(n-1)/3, k<=n", "exhaustive": true},
 	})
 }
+
+// C03: the limits the factory ADVERTISES to libocr (ReportingPluginInfo.Limits) are the ones the
+// builders enforce and the checks compare against (the package constants read by gen/): an observation /
+// outcome / report count within the constant is within the advertised maximum only if the two agree.
+func TestC03Limits(t *testing.T) {
+	dir := OutDir(t, "C03")
+	var bad []map[string]any
+	evals := 0
+	for _, nf := range [][2]int{{4, 1}, {10, 3}, {1, 0}} {
+		nd := NewNode(t, NodeOpts{N: nf[0], F: nf[1]})
+		l := nd.Info.Limits
+		for _, c := range []struct {
+			name      string
+			adv, want int
+		}{
+			{"MaxObservationLength", l.MaxObservationLength, ocr2keepers.MaxObservationLength},
+			{"MaxOutcomeLength", l.MaxOutcomeLength, ocr2keepers.MaxOutcomeLength},
+			{"MaxReportLength", l.MaxReportLength, ocr2keepers.MaxReportLength},
+			{"MaxReportCount", l.MaxReportCount, ocr2keepers.MaxReportCount},
+			{"MaxQueryLength", l.MaxQueryLength, 0},
+		} {
+			evals++
+			if c.adv != c.want {
+				bad = append(bad, map[string]any{"limit": c.name, "advertised": c.adv, "enforced_by_the_builders": c.want, "n": nf[0], "f": nf[1]})
+			}
+		}
+		nd.Plugin.Close()
+	}
+	WriteJSON(t, filepath.Join(dir, "direct_limits.json"), map[string]any{
+		"evaluations": evals, "nontrivial_keys": []string{"limits-obs", "limits-outcome", "limits-report-count"}, "violations": bad,
+		"samples":      []any{map[string]any{"MaxObservationLength": ocr2keepers.MaxObservationLength, "MaxOutcomeLength": ocr2keepers.MaxOutcomeLength, "MaxReportCount": ocr2keepers.MaxReportCount}},
+		"distribution": map[string]any{"instances": 3},
+	})
+}
